@@ -39,7 +39,7 @@ func (P) Describe() harness.Description {
 	return harness.Description{
 		MustHit: []string{"capacity_reused_after_exit", "concurrent_rejections"},
 		Level:   "exploration",
-		Rule: "case = (1-3 resources, 1-3 isolation rules per resource, 10-60 operations: requests with batches over the full uint32 range (>=1) held open, exits in any order, ticks). " +
+		Rule: "case = (1-3 resources (every second one entered as inbound traffic), 1-3 isolation rules per resource, 10-60 operations: requests with batches over the full uint32 range (>=1) held open, exits in any order, ticks). " +
 			"E1: admit iff for every rule live(res)+b <= N in unbounded integers, TriggeredRule/TriggeredValue as the reference, node concurrency == live after every op. " +
 			"E2 (30%): k=2-4 callers, in-flight entries (counted between return of Entry and invocation of Exit) never exceed N+(k-1); at quiescence concurrency is 0. " +
 			"non-trivial = capacity was exhausted, then freed by an Exit and reused; distinct = hash(config, ops[, schedule])",
@@ -227,7 +227,7 @@ func (P) Exec(c *harness.Case) *harness.Outcome {
 			var e *base.SentinelEntry
 			var be *base.BlockError
 			harness.Call(o, "C04.panic", step, func() {
-				e, be = sentinel.Entry(harness.ResName(op.R), harness.EntryOpts(b, false, nil, nil, nil)...)
+				e, be = sentinel.Entry(harness.ResName(op.R), harness.EntryOpts(b, op.R%2 == 1, nil, nil, nil)...)
 			})
 			if o.Failed() {
 				return o
@@ -310,7 +310,7 @@ func execConc(c *harness.Case, o *harness.Outcome, cfg *Cfg, rules [][]*isolatio
 				if op.R < 0 || op.R >= cfg.NRes || op.N == 0 {
 					continue
 				}
-				e, be := sentinel.Entry(harness.ResName(op.R), harness.EntryOpts(uint32(op.N), false, nil, nil, nil)...)
+				e, be := sentinel.Entry(harness.ResName(op.R), harness.EntryOpts(uint32(op.N), op.R%2 == 1, nil, nil, nil)...)
 				if be != nil {
 					blocked++
 				}
@@ -366,7 +366,7 @@ func execConc(c *harness.Case, o *harness.Outcome, cfg *Cfg, rules [][]*isolatio
 		var e *base.SentinelEntry
 		var be *base.BlockError
 		if !harness.Call(o, "C04.panic", 0, func() {
-			e, be = sentinel.Entry(harness.ResName(r), harness.EntryOpts(1, false, nil, nil, nil)...)
+			e, be = sentinel.Entry(harness.ResName(r), harness.EntryOpts(1, r%2 == 1, nil, nil, nil)...)
 		}) {
 			return
 		}
